@@ -1,8 +1,33 @@
-/- line-protocol engine `ord` (stub: answers bad-op until the engine is built) -/
+/- line-protocol engine `ord`: sorting / heap / selection with injectable comparator failures,
+   the derivations of eq/cmp/hash/to_str and the format-specifier machinery (C19) -/
+import XrayModel.Sort
+open XrayModel
 namespace XrayDriver
+namespace Ord
+
+def parseInts (s : String) : Option (List Int) :=
+  if s == "-" then some [] else (s.splitOn ",").mapM String.toInt?
+
+def showInts (l : List Int) : String :=
+  if l.isEmpty then "-" else String.intercalate "," (l.map toString)
+
+/-- comparator of the unit-level tie: compare `x / d` (floor; `d ≥ 1`), fail at comparison `k` -/
+def ltKey (d : Int) (k : Int) : Sort.Cmp String Int := fun i a b =>
+  if (i : Int) == k then .error "E" else .ok (decide (a / d < b / d))
+
+def showLRes : Sort.LRes String Int → String
+  | .ok l n => s!"ok {showInts l} {n}"
+  | .fail e b n => s!"fail {e} {showInts b} {n}"
+  | .panic => "panic"
+
+end Ord
 
 def ordEngine (f : String) (args : List String) : String :=
   match f, args with
+  | "sort", [d, k, xs] =>
+    match d.toInt?, k.toInt?, Ord.parseInts xs with
+    | some d, some k, some xs => if d ≥ 1 then Ord.showLRes (Sort.trySort (Ord.ltKey d k) xs) else "bad-op"
+    | _, _, _ => "bad-op"
   | _, _ => "bad-op"
 
 end XrayDriver
